@@ -125,14 +125,25 @@ func (p *Proposal) PendingMessage() *PendingMessage {
 }
 
 func (p *Proposal) Message() (*Message, error) {
-	buf := bytes.NewBuffer(p.Data())
+	data, err := p.data()
+	if err != nil {
+		return nil, fmt.Errorf("Unable to decompress message: %w", err)
+	}
 	m := new(Message)
-	err := m.ReadFrom(buf)
+	err = m.ReadFrom(bytes.NewBuffer(data))
 	return m, err
 }
 
 // Data returns the decompressed raw message
 func (p *Proposal) Data() []byte {
+	data, err := p.data()
+	if err != nil {
+		panic(err) //TODO: Should return error
+	}
+	return data
+}
+
+func (p *Proposal) data() ([]byte, error) {
 	var r io.ReadCloser
 	var err error
 
@@ -144,15 +155,15 @@ func (p *Proposal) Data() []byte {
 	}
 
 	if err != nil {
-		panic(err) //TODO: Should return error
+		return nil, err
 	}
 
 	var buf bytes.Buffer
 	if _, err := io.Copy(&buf, r); err != nil {
-		panic(err) //TODO
+		return nil, err
 	}
 
-	return buf.Bytes()
+	return buf.Bytes(), nil
 }
 
 func parseProposal(line string, prop *Proposal) (err error) {
